@@ -48,10 +48,16 @@ func execC15(ctx *Ctx, in *Input) *Result {
 	if !ok {
 		return res
 	}
+	// nestPlan mirrors engbrt.Nest: which feed runs nested (and what nests inside that)
+	type nestPlan struct {
+		Fi    int
+		Inner *nestPlan
+	}
 	type plan struct {
 		sc    *specCtx
 		u     *genUnit
-		feeds [][]int // per parse op: feed index (history: one list; interleave: per context)
+		feeds [][]int           // per parse op: feed index (history: one list; interleave: per context)
+		nests map[int]*nestPlan // history: parse op index -> the nested parse planned inside it
 	}
 	var goJobs, tsJobs []engbrt.Job
 	var goPlans, tsPlans []plan
@@ -70,9 +76,29 @@ func execC15(ctx *Ctx, in *Input) *Result {
 				q := rr.Sub(u.Variant.String(), "hist", h)
 				var ops []engbrt.Op
 				var idx []int
+				nests := map[int]*nestPlan{}
 				hl := histLen
 				if h == 0 {
 					hl = 120 // one long history per parser: state carried across many operations
+				}
+				// (d) the global form re-entered from an action (PushContex / ParserInit / Parser / PopContex): a third of
+				// the parses of every second history suspend at a seeded reduction and run another parse to the end, which
+				// may itself suspend once more. Needs actions that call the environment (not the shared-action specs).
+				nesting := u.Variant.Lang == "go" && !u.Variant.Object && !sc.Spec.NoRec && h%2 == 1
+				mkNest := func(outerFi int, depth int) (*engbrt.Nest, *nestPlan) { return nil, nil }
+				mkNest = func(outerFi int, depth int) (*engbrt.Nest, *nestPlan) {
+					nr := len(solo[u.Name][outerFi].Recs)
+					if nr == 0 {
+						return nil, nil
+					}
+					ifi := pick(q)
+					fd := sc.Feeds[ifi].feed()
+					n := &engbrt.Nest{At: q.Intn(nr), Feed: &fd}
+					np := &nestPlan{Fi: ifi}
+					if depth < 2 && q.Chance(1, 3) {
+						n.Inner, np.Inner = mkNest(ifi, depth+1)
+					}
+					return n, np
 				}
 				for k := 0; k < hl; k++ {
 					fi := pick(q)
@@ -83,16 +109,23 @@ func execC15(ctx *Ctx, in *Input) *Result {
 						ops = append(ops, engbrt.Op{Op: "init"})
 					}
 					fd := sc.Feeds[fi].feed()
-					ops = append(ops, engbrt.Op{Op: "parse", Feed: &fd})
+					op := engbrt.Op{Op: "parse", Feed: &fd}
+					if nesting && q.Chance(1, 3) {
+						if n, np := mkNest(fi, 1); n != nil {
+							op.Nest = n
+							nests[len(idx)] = np
+						}
+					}
+					ops = append(ops, op)
 					idx = append(idx, fi)
 				}
 				j := engbrt.Job{Parser: u.Name, Kind: "history", Ops: ops, Budget: 3000}
 				if u.Variant.Lang == "go" {
 					goJobs = append(goJobs, j)
-					goPlans = append(goPlans, plan{sc, u, [][]int{idx}})
+					goPlans = append(goPlans, plan{sc, u, [][]int{idx}, nests})
 				} else {
 					tsJobs = append(tsJobs, j)
-					tsPlans = append(tsPlans, plan{sc, u, [][]int{idx}})
+					tsPlans = append(tsPlans, plan{sc, u, [][]int{idx}, nil})
 				}
 			}
 			if u.Variant.Object && u.Variant.Lang == "go" {
@@ -123,7 +156,7 @@ func execC15(ctx *Ctx, in *Input) *Result {
 					}
 					pol := []string{"uniform", "bursts", "after-reduce"}[q.Intn(3)]
 					goJobs = append(goJobs, engbrt.Job{Parser: u.Name, Kind: "interleave", Ctxs: ctxs, Seed: q.Uint64(), Policy: pol, Trace: h%2 == 0, Budget: 3000})
-					goPlans = append(goPlans, plan{sc, u, idxs})
+					goPlans = append(goPlans, plan{sc, u, idxs, nil})
 				}
 			}
 		}
@@ -165,6 +198,31 @@ func execC15(ctx *Ctx, in *Input) *Result {
 					res.Count("fault_parse_aborted_by_syntax_error", 1)
 				}
 				res.Count("parses_compared", 1)
+				if d == "" && kind == "history" && pl.nests[k] != nil {
+					// the parses that ran nested inside this one: each must equal the same input parsed alone, too
+					if got.NestSkipped {
+						res.Count("nested_parse_not_offered_by_this_tree(no PushContex/PopContex)", 1)
+					} else {
+						var walk func(np *nestPlan, inner []engbrt.ParseResult, depth int) string
+						walk = func(np *nestPlan, inner []engbrt.ParseResult, depth int) string {
+							if len(inner) != 1 {
+								return fmt.Sprintf("nested parse (depth %d) of [%s] was planned inside an action but %d nested parses ran", depth, feedStr(pl.sc.Spec, pl.sc.Feeds[np.Fi].Toks), len(inner))
+							}
+							res.Count("fault_parse_suspended_by_nested_parse", 1)
+							res.Count("parses_compared", 1)
+							if dd := diffParse2(&solo[pl.u.Name][np.Fi], &inner[0], pl.sc, pl.u, true); dd != "" {
+								return fmt.Sprintf("the parse of [%s] nested at depth %d differs from the same input parsed alone: %s", feedStr(pl.sc.Spec, pl.sc.Feeds[np.Fi].Toks), depth, dd)
+							}
+							if np.Inner != nil {
+								return walk(np.Inner, inner[0].Inner, depth+1)
+							}
+							return ""
+						}
+						d = walk(pl.nests[k], got.Inner, 1)
+					}
+				} else if d != "" && kind == "history" && pl.nests[k] != nil {
+					d = fmt.Sprintf("(this parse was suspended at one of its actions for a nested parse of [%s] between PushContex and PopContex) %s", feedStr(pl.sc.Spec, pl.sc.Feeds[pl.nests[k].Fi].Toks), d)
+				}
 				if d != "" {
 					var hist []string
 					for kk := 0; kk <= k; kk++ {
@@ -173,6 +231,8 @@ func execC15(ctx *Ctx, in *Input) *Result {
 					class := "history-dependence"
 					if kind == "interleaving" {
 						class = "context-interference"
+					} else if pl.nests[k] != nil {
+						class = "nested-parse-interference"
 					}
 					res.Viol = &Violation{Class: class, Key: class, Sub: pl.u.SpecIdx,
 						Msg: fmt.Sprintf("grammar [%s], variant %s, %s: parse #%d of context %d (after %v) differs from the same input parsed alone: %s; schedule of contexts: %v",
